@@ -219,6 +219,13 @@ type FuncV struct {
 	Recv Value
 	// MethodExpr marks T.Method: the receiver is the first argument of a call.
 	MethodExpr bool
+	Sel        *types.Selection // of a method expression: the path to a promoted method's receiver
+}
+
+// Native is a function value implemented by the interpreter itself (the yield function of a range over
+// an iterator function).
+type Native struct {
+	Fn func(args []Value) (Value, error)
 }
 
 // Opaque is a value of a type from outside moq (go/types objects ...).
